@@ -3,7 +3,7 @@ from mc.props import _cellprop
 from mc.props import _masterprop
 from mc.worlds import cellcfg, cellmon, mastercfg
 
-BUDGET = {'quick': 60, 'thorough': 600}
+BUDGET = {'quick': 240, 'thorough': 900}
 
 
 def _k1():
@@ -67,12 +67,119 @@ RULE = ('BFS over histories of cell events x {cycle, no cycle}; a transition '
         '(c01_cycles_with_moves); loaded-server checks are counted separately')
 
 
+MEM_SPELL = [lambda g: '%dG' % g, lambda g: '%dM' % (g * 1024),
+             lambda g: '%dK' % (g * 1024 * 1024), lambda g: '%dg' % g,
+             lambda g: '%dm' % (g * 1024), lambda g: ' %dG ' % g,
+             lambda g: '%dk' % (g * 1024 * 1024)]
+CPU_SPELL = [lambda c: '%d%%' % c, lambda c: '%d' % c, lambda c: c,
+             lambda c: ' %d%% ' % c]
+SPELL_HISTORY = (('app+', 'a', True), ('app+', 'b', True), ('app+', 'c', True),
+                 ('pres-', 's0', True), ('app+', 'a', True),
+                 ('pres+', 's0', 0, True), ('app-', 0, True),
+                 ('restart', True))
+
+
+def _spell_cfg(ms, cs, ds):
+    cfg = mastercfg.m1()
+    for name, (m, c, d) in (('s0', (10, 100, 10)), ('s1', (10, 100, 10)),
+                            ('s2', (10, 40, 10))):
+        cfg['servers'][name]['variants'] = [
+            {'cap': [MEM_SPELL[ms](m), CPU_SPELL[cs](c), MEM_SPELL[ds](d)]}]
+    cfg['templates'] = {
+        'a': {'memory': MEM_SPELL[ms](3), 'cpu': CPU_SPELL[cs](30),
+              'disk': MEM_SPELL[ds](3), 'affinity': 'a'},
+        'b': {'memory': MEM_SPELL[ms](6), 'cpu': CPU_SPELL[cs](20),
+              'disk': MEM_SPELL[ds](2), 'affinity': 'b'},
+        'c': {'memory': MEM_SPELL[ms](10), 'cpu': CPU_SPELL[cs](100),
+              'disk': MEM_SPELL[ds](10), 'affinity': 'c', 'priority': 100},
+    }
+    cfg['idgroups'] = {}
+    cfg['events'] = []
+    return cfg
+
+
+def spellings(ctx):
+    """Complete sweep of unit spellings: (i) loader.resources() maps every
+    spelling of the same quantity to the same vector, (ii) a fixed World-B
+    history gives identical placements under every spelling."""
+    from treadmill.scheduler import loader
+    from mc import statex
+    viol = []
+    n = 0
+    for g in (1, 2, 10):
+        for c in (1, 40, 100):
+            ref = None
+            for ms in range(len(MEM_SPELL)):
+                for ds in range(len(MEM_SPELL)):
+                    for cs in range(len(CPU_SPELL)):
+                        data = {'memory': MEM_SPELL[ms](g),
+                                'cpu': CPU_SPELL[cs](c),
+                                'disk': MEM_SPELL[ds](g)}
+                        vec = loader.resources(data)
+                        n += 1
+                        if ref is None:
+                            ref = vec
+                            if vec != [g * 1024, c, g * 1024]:
+                                viol.append({
+                                    'clause': 'spelling-wrong-quantity',
+                                    'site': 'loader.resources',
+                                    'detail': {'input': data, 'vector': vec},
+                                    'replay': {'spelling': [ms, cs, ds]}})
+                        elif vec != ref:
+                            viol.append({
+                                'clause': 'spelling-changes-quantity',
+                                'site': 'loader.resources',
+                                'detail': {'input': data, 'vector': vec,
+                                           'reference': ref},
+                                'replay': {'spelling': [ms, cs, ds]}})
+    ref = None
+    runs = 0
+    for ms in range(len(MEM_SPELL)):
+        for cs in range(len(CPU_SPELL)):
+            for ds in (0, 1, 2, 5):
+                spec = _masterprop.MasterSpec(_spell_cfg(ms, cs, ds))
+                w = statex.build(spec, SPELL_HISTORY)
+                runs += 1
+                placement = sorted((a.name, a.server)
+                                   for a in w.cell.apps.values())
+                free = sorted((nm, tuple(sv.free_capacity))
+                              for nm, sv in w.cell.members().items())
+                if ref is None:
+                    ref = (placement, free)
+                elif (placement, free) != ref:
+                    viol.append({
+                        'clause': 'spelling-changes-placement',
+                        'site': 'Loader',
+                        'detail': {'spelling': [ms, cs, ds],
+                                   'placement': placement,
+                                   'reference': ref[0]},
+                        'replay': {'spelling': [ms, cs, ds]}})
+    dedup = {}
+    for v in viol:
+        k = (v['clause'], v['site'])
+        if k in dedup:
+            dedup[k]['count'] += 1
+        else:
+            v['count'] = 1
+            dedup[k] = v
+    return n, runs, list(dedup.values())
+
+
 def run(ctx):
     out = _cellprop.run_configs(
         ctx, configs(ctx), ['c01_cycles_with_moves'], RULE,
         _cellprop.BASE_ASSUMPTIONS + _masterprop.ASSUMPTIONS[:2])
+    n, runs, viol = spellings(ctx)
+    cov = out['coverage']
+    cov['spelling_inputs_swept'] = n
+    cov['spelling_differential_runs'] = runs
+    cov['evaluations'] += n + runs
+    out['violations'].extend(viol)
     return out
 
 
 def replay(ctx, data):
+    if 'spelling' in data:
+        _n, _r, viol = spellings(ctx)
+        return {'coverage': {}, 'violations': viol}
     return _cellprop.replay_config(ctx, configs(ctx), data)
